@@ -815,13 +815,16 @@ func genQF(r *vh.Rand) string {
 }
 
 func genFlight(r *vh.Rand, pad int) string {
-	switch r.Intn(5) {
+	switch r.Intn(6) {
 	case 0: // tail first, then head; middle in the second datagram
 		h, t := 1+r.Intn(80), 1+r.Intn(120)
 		return fmt.Sprintf("ff:C-%d.0,C0.%d|C%d.-%d", t, h, h, t)
 	case 1: // fixed cuts
 		a := 200 + r.Intn(900)
 		return fmt.Sprintf("ff:C0.%d,G|C%d.0", a, a)
+	case 5: // a plan that leaves a gap in the CRYPTO stream: rejected, nothing may be sent
+		a := 50 + r.Intn(100)
+		return fmt.Sprintf("ff:C0.%d,G|C%d.0", a, a+1+r.Intn(40))
 	case 2: // three datagrams, the last a lone PING (excluded point for short pn lengths)
 		a := 100 + r.Intn(900)
 		return fmt.Sprintf("ff:C0.%d|C%d.0|G", a, a)
